@@ -452,6 +452,13 @@ pub fn run(ctx: &Ctx) {
     let mut tally = Tally { oos: BTreeMap::new(), oos_samples: BTreeMap::new() };
     let mut rng = Rng::new(ctx.seed);
     if let Some(v) = replay_input(ctx) {
+        if v.get("w25").is_some() {
+            w25_replay(&mut sess, ctx, &v);
+            sess.nontrivial("replay-a");
+            sess.nontrivial("replay-b");
+            sess.finish("replay of one recorded input", false, json!({}));
+            return;
+        }
         let g = |k: &str| v[k].as_str().unwrap_or("").to_string();
         let c = Case { prefix: g("prefix"), digits: g("digits"), word: g("word"), follow: g("follow"), origin: "replay" };
         {
@@ -641,6 +648,9 @@ pub fn run(ctx: &Ctx) {
     }
     run_batch(&mut sess, &mut tally, &cases);
 
+    // ---- 6. w25: other call sites, configurations and document shapes (see the section below)
+    w25_streams(&mut sess, &mut tally, ctx, &mut rng, &sents);
+
     let oos: BTreeMap<String, Value> = tally
         .oos
         .iter()
@@ -648,7 +658,7 @@ pub fn run(ctx: &Ctx) {
         .collect();
     sess.finish(
         &format!(
-            "NumberSuffix::from_chars on all 1–3 letter strings over an 18-character alphabet, to_chars, correct_suffix_for on 0..{nmax} exhaustively + random up to 2^53-1; then the REAL pipeline (plain-English lexer, condense_number_suffixes, LintGroup with only CorrectNumberSuffix enabled) on `The <n><suffix> item.` and on the number embedded at random word positions (optionally parenthesised / quoted / followed by punctuation) of digit-free rule-test sentences, for every n in 0..{nmax} × all 16 spellings of st/nd/rd/th exhaustively; random n up to 2^53-1 of every magnitude incl. leading zeros; long-decade shapes [12]dd0; every non-alphanumeric ASCII character (and 19 others) directly after / before the ordinal. Non-trivial = a lint is reported; distinct by (digits, spelling, position)."
+            "NumberSuffix::from_chars on all 1–3 letter strings over an 18-character alphabet, to_chars, correct_suffix_for on 0..{nmax} exhaustively + random up to 2^53-1; then the REAL pipeline (plain-English lexer, condense_number_suffixes, LintGroup with only CorrectNumberSuffix enabled) on `The <n><suffix> item.` and on the number embedded at random word positions (optionally parenthesised / quoted / followed by punctuation) of digit-free rule-test sentences, for every n in 0..{nmax} × all 16 spellings of st/nd/rd/th exhaustively; random n up to 2^53-1 of every magnitude incl. leading zeros; long-decade shapes [12]dd0; every non-alphanumeric ASCII character (and 19 others) directly after / before the ordinal. W25: the same judgement (K + O) with non-ASCII / astral / combining / CRLF / very long prefixes; documents with 2–6 ordinals (any mixture of right and wrong ones) judged as a whole — lints = exactly the wrong ones, each over its two letters with the right suffix, all suggestions applied → clean — through: the rule called directly (`CorrectNumberSuffix.lint`), a NEW group per document, all curated rules on (lints selected by the rule's message) under every dialect, a merged dictionary with user words, Markdown (also inside emphasis) and a Rust line comment, `harper_wasm::Linter` (plain and Markdown, `apply_suggestion`), and the real harper-ls (diagnostic ranges, code-action edits, re-publication after the edits; default and explicit `linters` configuration). Non-trivial = a lint is reported; distinct by (digits, spelling, position)."
         ),
         true,
         json!({
@@ -656,4 +666,468 @@ pub fn run(ctx: &Ctx) {
             "out_of_scope": oos,
         }),
     );
+}
+
+// =====================================================================================
+// w25 — audit of oracles / call sites / generator dimensions against the property text.
+// =====================================================================================
+
+const W25_MSG: &str = "This number needs a different suffix to sound right.";
+
+/// a document made of text pieces and ordinals; positions follow from the construction
+#[derive(Clone)]
+struct Multi {
+    /// (text before, digits, spelled suffix) … and the text after the last ordinal
+    ords: Vec<(String, String, String)>,
+    tail: String,
+}
+
+impl Multi {
+    fn text(&self) -> String {
+        let mut s = String::new();
+        for (pre, d, w) in &self.ords {
+            s.push_str(pre);
+            s.push_str(d);
+            s.push_str(w);
+        }
+        s.push_str(&self.tail);
+        s
+    }
+    /// expected lints: (start, end, correct suffix) of every wrong ordinal, char indices
+    fn expected(&self, shift: usize) -> Vec<(usize, usize, String)> {
+        let mut at = shift;
+        let mut v = vec![];
+        for (pre, d, w) in &self.ords {
+            at += pre.chars().count() + d.chars().count();
+            let want = english(d);
+            if w.to_ascii_lowercase() != want {
+                v.push((at, at + 2, want.to_string()));
+            }
+            at += 2;
+        }
+        v
+    }
+    fn json(&self, engine: &str) -> Value {
+        json!({"w25": engine, "text": self.text(), "ords": self.ords.iter().map(|(p, d, w)| json!([p, d, w])).collect::<Vec<_>>(), "tail": self.tail})
+    }
+    fn from_json(v: &Value) -> Multi {
+        let ords = v["ords"].as_array().map(|a| a.iter().map(|x| (x[0].as_str().unwrap_or("").to_string(), x[1].as_str().unwrap_or("").to_string(), x[2].as_str().unwrap_or("").to_string())).collect()).unwrap_or_default();
+        Multi { ords, tail: v["tail"].as_str().unwrap_or("").to_string() }
+    }
+}
+
+/// separators that keep every ordinal in the property's scope (not preceded by an alphanumeric,
+/// `.` or `,`; followed by the end of the text or a non-alphanumeric that starts no longer token)
+const W25_SEPS_PLAIN: &[&str] = &[" and the ", ", the ", "; ", " (", ") ", " — ", "\n", "\r\n", " 😀 ", " é ", "! ", "? ", " / ", "\t", "\n\n", " \"", "\" ", " 𝒜 ", " e\u{301} "];
+const W25_SEPS_SAFE: &[&str] = &[" and the ", ", the ", "; ", " 😀 ", " é ", "! ", " — ", " (see ", ") "];
+
+fn w25_multi(rng: &mut Rng, seps: &[&str], all_wrong: bool) -> Multi {
+    let k = rng.range(2, 6);
+    let mut ords = vec![];
+    for i in 0..k {
+        let pre = if i == 0 { (*rng.pick::<&str>(&["The ", "", "On the ", "It was the ", "é😀 "])).to_string() } else { (*rng.pick::<&str>(seps)).to_string() };
+        let d = if rng.chance(1, 3) { random_digits(rng) } else { rng.below(130).to_string() };
+        let w = if !all_wrong && rng.chance(1, 2) {
+            let e = english(&d);
+            (*rng.pick::<&str>(&[e, &e.to_uppercase()])).to_string()
+        } else {
+            (*rng.pick(&SPELLINGS)).to_string()
+        };
+        ords.push((pre, d, w));
+    }
+    let tail = (*rng.pick::<&str>(&["", ".", " item.", " of May.", "!", " 😀"])).to_string();
+    Multi { ords, tail }
+}
+
+type W25Lints = Vec<(usize, usize, Vec<String>)>;
+
+fn w25_core_lints(lints: &[harper_core::linting::Lint], only_msg: bool) -> (W25Lints, Vec<(harper_core::Span, Suggestion)>) {
+    let mut v = vec![];
+    let mut fixes = vec![];
+    for l in lints {
+        if only_msg && l.message != W25_MSG {
+            continue;
+        }
+        let sugg: Vec<String> = l.suggestions.iter().map(|s| match s { Suggestion::ReplaceWith(cs) => cs.iter().collect(), other => format!("{:?}", other) }).collect();
+        v.push((l.span.start, l.span.end, sugg));
+        if let Some(s) = l.suggestions.first() {
+            fixes.push((l.span, s.clone()));
+        }
+    }
+    (v, fixes)
+}
+
+fn w25_apply(text: &str, fixes: &[(harper_core::Span, Suggestion)]) -> String {
+    let mut src: Vec<char> = text.chars().collect();
+    let mut f: Vec<_> = fixes.to_vec();
+    f.sort_by_key(|x| std::cmp::Reverse(x.0.start));
+    for (span, s) in f {
+        s.apply(span, &mut src);
+    }
+    src.iter().collect()
+}
+
+/// the engines: how a text reaches the rule. Returns (lints of the rule, lints after all its
+/// suggestions were applied, char shift of the Multi's text inside the engine's document)
+fn w25_engine(engine: &str, m: &Multi) -> Result<(W25Lints, usize, usize), String> {
+    use harper_core::linting::CorrectNumberSuffix;
+    use harper_core::{MergedDictionary, MutableDictionary, WordMetadata};
+    use std::sync::Arc;
+    let dict = FstDictionary::curated();
+    let body = m.text();
+    let (text, shift): (String, usize) = match engine {
+        "markdown-strong" => {
+            // every ordinal inside emphasis of its own
+            let mut s = String::new();
+            for (pre, d, w) in &m.ords {
+                s.push_str(pre);
+                s.push_str(&format!("**{}{}**", d, w));
+            }
+            s.push_str(&m.tail);
+            (s, usize::MAX)
+        }
+        "rust-comment" => (format!("fn f() {{}}\n// {}\nfn g() {{}}\n", body), 13),
+        _ => (body.clone(), 0),
+    };
+    guarded(|| {
+        fn only(mut g: LintGroup) -> LintGroup {
+            g.config.clear();
+            g.config.set_rule_enabled("CorrectNumberSuffix", true);
+            g
+        }
+        // (document maker, linter, filter by message)
+        let mk_doc = |t: &str| -> Document {
+            match engine {
+                "markdown" | "markdown-strong" => Document::new_markdown_default(t, &dict),
+                "rust-comment" => {
+                    let p = harper_comments::CommentParser::new_from_language_id("rust", harper_core::parsers::MarkdownOptions::default()).unwrap();
+                    Document::new(t, &p, &dict)
+                }
+                "merged-dict" => Document::new_plain_english(t, &w25_merged()),
+                _ => Document::new_plain_english(t, &dict),
+            }
+        };
+        fn w25_merged() -> Arc<MergedDictionary> {
+            let mut user = MutableDictionary::new();
+            for w in ["st", "nd", "rd", "th", "ST", "2st", "3th", "11st", "1ST", "Nd"] {
+                user.append_word_str(w, WordMetadata::default());
+            }
+            let mut md = MergedDictionary::new();
+            md.add_dictionary(FstDictionary::curated());
+            md.add_dictionary(Arc::new(user));
+            Arc::new(md)
+        }
+        let lint = |doc: &Document| -> Vec<harper_core::linting::Lint> {
+            match engine {
+                "direct" => CorrectNumberSuffix.lint(doc),
+                "merged-dict" => only(LintGroup::new_curated(w25_merged(), Dialect::American)).lint(doc),
+                "all-rules-american" => LintGroup::new_curated(dict.clone(), Dialect::American).lint(doc),
+                "all-rules-british" => LintGroup::new_curated(dict.clone(), Dialect::British).lint(doc),
+                "all-rules-canadian" => LintGroup::new_curated(dict.clone(), Dialect::Canadian).lint(doc),
+                "all-rules-australian" => LintGroup::new_curated(dict.clone(), Dialect::Australian).lint(doc),
+                _ => only(LintGroup::new_curated(dict.clone(), Dialect::American)).lint(doc),
+            }
+        };
+        let by_msg = engine.starts_with("all-rules");
+        let doc = mk_doc(&text);
+        let (lints, fixes) = w25_core_lints(&lint(&doc), by_msg);
+        let fixed = w25_apply(&text, &fixes);
+        let doc2 = mk_doc(&fixed);
+        let (after, _) = w25_core_lints(&lint(&doc2), by_msg);
+        (lints, after.len(), shift)
+    })
+}
+
+/// `sess.fail` + a tally per engine (attribution when the 20 recorded failures per class are taken)
+fn w25_fail(sess: &mut Session, engine: &str, class: &str, desc: String, input: Value) {
+    sess.count(&format!("w25:failures-seen-by:{}:{}", engine, class));
+    sess.fail(class, desc, input, None);
+}
+
+/// compare what an engine reported with what the construction of the text demands
+fn w25_judge(sess: &mut Session, engine: &str, m: &Multi, lints: &W25Lints, after: usize, shift: usize) {
+    sess.o();
+    sess.count(&format!("w25:engine:{}", engine));
+    sess.count(&format!("w25:ordinals-per-document={}", m.ords.len()));
+    // `markdown-strong`: the positions are those of the text with `**` around every ordinal
+    let want: Vec<(usize, usize, String)> = if shift == usize::MAX {
+        let mut at = 0usize;
+        let mut v = vec![];
+        for (pre, d, w) in &m.ords {
+            at += pre.chars().count() + 2 + d.chars().count();
+            if w.to_ascii_lowercase() != english(d) {
+                v.push((at, at + 2, english(d).to_string()));
+            }
+            at += 2 + 2;
+        }
+        v
+    } else {
+        m.expected(shift)
+    };
+    sess.count(&format!("w25:wrong-ordinals-per-document={}", want.len().min(4)));
+    if !want.is_empty() {
+        sess.nontrivial(&format!("w25|{}|{}", engine, m.text()));
+    }
+    let got: Vec<(usize, usize)> = lints.iter().map(|l| (l.0, l.1)).collect();
+    let inp = m.json(engine);
+    for (s, e, sfx) in &want {
+        match lints.iter().find(|l| l.0 == *s && l.1 == *e) {
+            None => {
+                // is there a lint that overlaps it (wrong span) or none at all (missed)?
+                let class = if got.iter().any(|g| g.0 < *e && *s < g.1) { "span" } else { "missed" };
+                w25_fail(sess, engine, class, format!("[{}] {:?}: the wrong suffix at [{}, {}) should be reported with {:?}; reported spans {:?}", engine, m.text(), s, e, sfx, got), inp.clone());
+                return;
+            }
+            Some(l) => {
+                if !(l.2.len() == 1 && l.2[0].to_ascii_lowercase() == *sfx) {
+                    w25_fail(sess, engine, "suggestion", format!("[{}] {:?}: suggestion {:?} at [{}, {}), correct suffix is {:?}", engine, m.text(), l.2, s, e, sfx), inp.clone());
+                    return;
+                }
+            }
+        }
+    }
+    if got.len() != want.len() {
+        let extra: Vec<&(usize, usize)> = got.iter().filter(|g| !want.iter().any(|w| (w.0, w.1) == **g)).collect();
+        w25_fail(sess, engine, "false-alarm", format!("[{}] {:?}: {} lint(s) for {} wrong suffix(es); unexpected spans {:?}", engine, m.text(), got.len(), want.len(), extra), inp.clone());
+        return;
+    }
+    if after != 0 {
+        w25_fail(sess, engine, "not-fixed", format!("[{}] {:?}: {} lint(s) remain after applying every suggestion", engine, m.text(), after), inp);
+    }
+}
+
+const W25_ENGINES: &[&str] = &["direct", "fresh-group", "merged-dict", "all-rules-american", "all-rules-british", "all-rules-canadian", "all-rules-australian", "markdown", "markdown-strong", "rust-comment"];
+
+/// harper_wasm::Linter (native build): lint → the rule's lints; apply_suggestion for each → relint
+fn w25_wasm(js: &mut harper_wasm::Linter, md: bool, m: &Multi) -> Result<(W25Lints, usize, usize), String> {
+    use harper_wasm::Language;
+    let lang = || if md { Language::Markdown } else { Language::Plain };
+    let text = m.text();
+    let r = std::panic::catch_unwind(std::panic::AssertUnwindSafe(|| {
+        let out = js.lint(text.clone(), lang());
+        let mut mine: Vec<&harper_wasm::Lint> = out.iter().filter(|l| l.message() == W25_MSG).collect();
+        let lints: W25Lints = mine.iter().map(|l| (l.span().start, l.span().end, l.suggestions().iter().map(|s| s.get_replacement_text()).collect())).collect();
+        // apply from the last to the first (the lints keep their spans: every edit has length 2)
+        mine.sort_by_key(|l| std::cmp::Reverse(l.span().start));
+        let mut t = text.clone();
+        for l in mine {
+            if let Some(s) = l.suggestions().first() {
+                t = js.apply_suggestion(t.clone(), l, s).unwrap_or(t);
+            }
+        }
+        let after = js.lint(t, lang()).iter().filter(|l| l.message() == W25_MSG).count();
+        (lints, after, 0usize)
+    }));
+    r.map_err(|_| "panic".to_string())
+}
+
+/// UTF-16 (line, column) of the char index `at` of `text`
+fn w25_pos16(text: &str, at: usize) -> (usize, usize) {
+    let (mut line, mut col) = (0usize, 0usize);
+    for (i, c) in text.chars().enumerate() {
+        if i == at {
+            break;
+        }
+        if c == '\n' {
+            line += 1;
+            col = 0;
+        } else {
+            col += c.len_utf16();
+        }
+    }
+    (line, col)
+}
+
+/// the real harper-ls: didOpen → the rule's diagnostics (ranges), codeAction on each (edit),
+/// didChange with every edit applied → no such diagnostic
+fn w25_server(sess: &mut Session, ctx: &Ctx, cfg: &Value, cfg_name: &str, lang: &str, docs: &[Multi]) -> Result<(), crate::lsclient::LsError> {
+    use crate::lsclient::*;
+    set_home(&ctx.out.join("c17-home"));
+    let mut ls = LsSession::start()?;
+    ls.initialize(cfg)?;
+    for (n, m) in docs.iter().enumerate() {
+        let engine = format!("ls:{}:{}", cfg_name, lang);
+        // a last line of its own, newline-terminated (C08's recorded last-line quirk is not C17's business)
+        let text = format!("{}\nEnd.\n", m.text());
+        let uri = format!("file:///c17-server/doc{}.{}", n, if lang == "markdown" { "md" } else { "txt" });
+        ls.notify("textDocument/didOpen", did_open(&uri, lang, &text))?;
+        ls.quiesce(cfg)?;
+        let diags: Vec<Value> = ls.last_publication(&uri).and_then(|v| v.as_array().cloned()).unwrap_or_default().into_iter().filter(|d| d["message"].as_str() == Some(W25_MSG)).collect();
+        sess.o();
+        sess.count(&format!("w25:engine:{}", engine));
+        let want = m.expected(0);
+        let inp = m.json(&engine);
+        let rng_of = |d: &Value| (d["range"]["start"]["line"].as_u64().unwrap_or(9999) as usize, d["range"]["start"]["character"].as_u64().unwrap_or(9999) as usize, d["range"]["end"]["line"].as_u64().unwrap_or(9999) as usize, d["range"]["end"]["character"].as_u64().unwrap_or(9999) as usize);
+        let got: Vec<(usize, usize, usize, usize)> = diags.iter().map(rng_of).collect();
+        let mut edits: Vec<(usize, String)> = vec![];
+        let mut bad = false;
+        for (s, e, sfx) in &want {
+            let (l0, c0) = w25_pos16(&text, *s);
+            let (l1, c1) = w25_pos16(&text, *e);
+            if !got.contains(&(l0, c0, l1, c1)) {
+                w25_fail(sess, &engine, "missed", format!("[{}] {:?}: no diagnostic of the rule at {}:{}-{}:{} (the wrong suffix at chars [{}, {})); published {:?}", engine, text, l0, c0, l1, c1, s, e, got), inp.clone());
+                bad = true;
+                break;
+            }
+            let params = json!({"textDocument": {"uri": uri}, "range": {"start": {"line": l0, "character": c0}, "end": {"line": l1, "character": c1}}, "context": {"diagnostics": []}});
+            let resp = ls.request_sync("textDocument/codeAction", params, cfg)?;
+            let found = resp["result"].as_array().map(|a| {
+                a.iter().any(|act| {
+                    act["edit"]["changes"][&uri].as_array().is_some_and(|es| {
+                        es.len() == 1 && es[0]["newText"].as_str().is_some_and(|t| t.to_ascii_lowercase() == *sfx) && rng_of(&es[0]) == (l0, c0, l1, c1)
+                    })
+                })
+            });
+            if found != Some(true) {
+                w25_fail(sess, &engine, "suggestion", format!("[{}] {:?}: no code action replaces {}:{}-{}:{} with {:?}", engine, text, l0, c0, l1, c1, sfx), inp.clone());
+                bad = true;
+                break;
+            }
+            edits.push((*s, sfx.clone()));
+        }
+        if bad {
+            continue;
+        }
+        if got.len() != want.len() {
+            w25_fail(sess, &engine, "false-alarm", format!("[{}] {:?}: {} diagnostic(s) of the rule for {} wrong suffix(es): {:?}", engine, text, got.len(), want.len(), got), inp.clone());
+            continue;
+        }
+        if !want.is_empty() {
+            sess.nontrivial(&format!("w25|{}|{}", engine, text));
+            let mut cs: Vec<char> = text.chars().collect();
+            for (s, sfx) in &edits {
+                for (k, c) in sfx.chars().enumerate() {
+                    cs[s + k] = c;
+                }
+            }
+            let fixed: String = cs.iter().collect();
+            ls.notify("textDocument/didChange", did_change(&uri, 2, &fixed))?;
+            ls.quiesce(cfg)?;
+            let left = ls.last_publication(&uri).and_then(|v| v.as_array().cloned()).unwrap_or_default().into_iter().filter(|d| d["message"].as_str() == Some(W25_MSG)).count();
+            if left != 0 {
+                w25_fail(sess, &engine, "not-fixed", format!("[{}] {:?} → {:?}: {} diagnostic(s) of the rule remain", engine, text, fixed, left), inp.clone());
+            }
+        }
+    }
+    ls.shutdown(cfg)?;
+    Ok(())
+}
+
+fn w25_server_configs() -> Vec<(&'static str, Value)> {
+    vec![
+        ("default", json!({"harper-ls": {}})),
+        ("explicit", json!({"harper-ls": {"linters": {"CorrectNumberSuffix": true, "SpellCheck": false, "NoSuchRule": true, "SentenceCapitalization": null}, "dialect": "British"}})),
+    ]
+}
+
+fn w25_replay(sess: &mut Session, ctx: &Ctx, v: &Value) {
+    let engine = v["w25"].as_str().unwrap_or("").to_string();
+    let m = Multi::from_json(v);
+    if let Some(rest) = engine.strip_prefix("ls:") {
+        let (cfg_name, lang) = rest.split_once(':').unwrap_or(("default", "plaintext"));
+        let cfg = w25_server_configs().into_iter().find(|c| c.0 == cfg_name).map(|c| c.1).unwrap_or(json!({"harper-ls": {}}));
+        if let Err(e) = w25_server(sess, ctx, &cfg, cfg_name, lang, &[m]) {
+            sess.sample(json!({"w25 server stream failed": format!("{:?}", e)}));
+        }
+    } else if let Some(lang) = engine.strip_prefix("wasm:") {
+        let mut js = harper_wasm::Linter::new(harper_wasm::Dialect::American);
+        match w25_wasm(&mut js, lang == "markdown", &m) {
+            Ok((l, after, shift)) => w25_judge(sess, &engine, &m, &l, after, shift),
+            Err(_) => sess.fail("panic", format!("[{}] {:?}: panicked", engine, m.text()), m.json(&engine), None),
+        }
+    } else {
+        match w25_engine(&engine, &m) {
+            Ok((l, after, shift)) => w25_judge(sess, &engine, &m, &l, after, shift),
+            Err(_) => sess.fail("panic", format!("[{}] {:?}: panicked", engine, m.text()), m.json(&engine), None),
+        }
+    }
+}
+
+fn w25_streams(sess: &mut Session, tally: &mut Tally, ctx: &Ctx, rng: &mut Rng, sents: &[String]) {
+    let thorough = ctx.tier == Tier::Thorough;
+    // a. prefixes the embedding in rule-test sentences never writes: non-ASCII, astral, combining,
+    //    CRLF / lone CR, blank-only, very long — the existing judgement (K `nsrule` + O)
+    let mut cases = vec![];
+    let long_prefix = format!("{} ", "word ".repeat(if thorough { 4000 } else { 600 }));
+    let prefixes: Vec<String> = [
+        "😀 ", "😀😀😀 the ", "é ü ß İ the ", "𝒜𝒷 ", "e\u{301} ", "\u{301} ", "中文 ", "한국어 ", "１２ ", "ｓｔ ", "a\r\n", "a\r", "\r\n\r\n", "\n\n\n", " \t ", "\u{a0}", "\u{3000}", "\u{200b} ", "“", "‘", "«", "—", "…", "👨‍👩‍👧 ", "x\u{2028}",
+    ]
+    .iter()
+    .map(|s| s.to_string())
+    .chain([long_prefix])
+    .collect();
+    for pre in &prefixes {
+        for (d, w) in [("2", "st"), ("22", "ND"), ("13", "th"), ("101", "st"), ("112", "nD"), ("11", "st"), ("3", "rd"), ("9007199254740991", "nd")] {
+            cases.push(Case::new(pre, d, w, "", "w25-prefix"));
+            cases.push(Case::new(pre, d, w, " item 😀.", "w25-prefix"));
+            cases.push(Case::new(pre, d, w, "\r\nnext", "w25-prefix"));
+        }
+    }
+    for _ in 0..(if thorough { 20_000 } else { 1_500 }) {
+        let (d, w) = (random_digits(rng), *rng.pick(&SPELLINGS));
+        let mut c = embed(rng, sents, &d, w, "w25-prefix-random");
+        let pre = prefixes[rng.below(prefixes.len() - 1)].clone();
+        c.prefix = format!("{}{}", pre, c.prefix);
+        if rng.chance(1, 3) {
+            c.prefix = c.prefix.replace(' ', *rng.pick::<&str>(&["  ", "\t", "\n", "\r\n", " 😀 "]));
+        }
+        if c.prefix.chars().last().is_some_and(|ch| ch.is_alphanumeric() || ch == '.' || ch == ',') {
+            c.prefix.push(' ');
+        }
+        cases.push(c);
+    }
+    run_batch(sess, tally, &cases);
+
+    // b. several ordinals in one document, through every in-process engine
+    let per_engine = if thorough { 4000 } else { 300 };
+    let mut jobs: Vec<(&'static str, Multi)> = vec![];
+    for engine in W25_ENGINES {
+        let plain = matches!(*engine, "direct" | "fresh-group" | "merged-dict") || engine.starts_with("all-rules");
+        let n = if engine.starts_with("all-rules") { per_engine / 3 } else { per_engine };
+        // corpus: the seeded change C17r4's witness and neighbours
+        for (a, b) in [(("1", "st"), ("2", "st")), (("2", "st"), ("3", "nd")), (("11", "st"), ("12", "nd")), (("21", "st"), ("22", "nd"))] {
+            jobs.push((engine, Multi { ords: vec![("The ".into(), a.0.into(), a.1.into()), (" and the ".into(), b.0.into(), b.1.into())], tail: " of May.".into() }));
+        }
+        for i in 0..n {
+            jobs.push((engine, w25_multi(rng, if plain { W25_SEPS_PLAIN } else { W25_SEPS_SAFE }, i % 4 == 0)));
+        }
+    }
+    let threads = std::thread::available_parallelism().map(|n| n.get()).unwrap_or(4).min(16);
+    let outs = par_map(jobs.len(), threads, |i| w25_engine(jobs[i].0, &jobs[i].1));
+    for (j, o) in jobs.iter().zip(outs) {
+        match o {
+            Ok((l, after, shift)) => w25_judge(sess, j.0, &j.1, &l, after, shift),
+            Err(_) => {
+                sess.o();
+                sess.fail("panic", format!("[{}] {:?}: panicked", j.0, j.1.text()), j.1.json(j.0), None);
+            }
+        }
+    }
+
+    // c. harper_wasm::Linter, ONE long-lived instance per language (its own dictionary and group)
+    for md in [false, true] {
+        let engine = if md { "wasm:markdown" } else { "wasm:plain" };
+        let mut js = harper_wasm::Linter::new(harper_wasm::Dialect::American);
+        for i in 0..(if thorough { 1500 } else { 120 }) {
+            let m = w25_multi(rng, if md { W25_SEPS_SAFE } else { W25_SEPS_PLAIN }, i % 4 == 0);
+            match w25_wasm(&mut js, md, &m) {
+                Ok((l, after, shift)) => w25_judge(sess, engine, &m, &l, after, shift),
+                Err(_) => {
+                    sess.o();
+                    sess.fail("panic", format!("[{}] {:?}: panicked", engine, m.text()), m.json(engine), None);
+                }
+            }
+        }
+    }
+
+    // d. the real harper-ls, two configurations × plain / Markdown, several documents open at once
+    for (cfg_name, cfg) in w25_server_configs() {
+        for lang in ["plaintext", "markdown"] {
+            let docs: Vec<Multi> = (0..(if thorough { 60 } else { 8 })).map(|i| w25_multi(rng, W25_SEPS_SAFE, i % 3 == 0)).collect();
+            if let Err(e) = w25_server(sess, ctx, &cfg, cfg_name, lang, &docs) {
+                sess.sample(json!({"w25 server stream failed": format!("{:?}", e)}));
+                sess.count("w25:ls:stream-error");
+            }
+        }
+    }
 }
